@@ -136,6 +136,47 @@ package flv
 //@   ensures out[0] == record.ConfigurationVersion && out[1] == record.AVCProfileIndication && out[2] == record.ProfileCompatibility && out[3] == record.AVCLevelIndication && out[4] == 0xff && out[5] == 0xe1
 //@   ensures be16(out, 6) == len(record.SPS) && forall(i, 0, len(record.SPS), out[8+i] == record.SPS[i])
 //@   ensures out[8+len(record.SPS)] == 1 && be16(out, 9+len(record.SPS)) == len(record.PPS) && forall(i, 0, len(record.PPS), out[11+len(record.SPS)+i] == record.PPS[i])
+// HEVCDecoderConfigurationRecord (ISO 14496-15 8.3.3.1.2): 23 fixed bytes from the record's fields, then three arrays of
+// one NAL unit each - VPS, SPS, PPS in this order - with NAL type, count 1, 16-bit length and the parameter set verbatim
+//@ import "github.com/cnotch/ipchub/av/codec/hevc"
+//@ func (record *HEVCDecoderConfigurationRecord) Marshal() (out []byte, err error)
+//@   requires record != nil && len(record.VPS) < 1<<16 && len(record.SPS) < 1<<16 && len(record.PPS) < 1<<16
+//@   modifies
+//@   fresh out
+//@   loop 0: unroll 4
+//@   ensures err == nil && len(out) == 38 + len(record.VPS) + len(record.SPS) + len(record.PPS)
+//@   ensures out[0] == 1 && out[1] == record.GeneralProfileSpace<<6 | record.GeneralTierFlag<<5 | record.GeneralProfileIDC && out[12] == record.GeneralLevelIDC
+//@   ensures out[2] == byte(record.GeneralProfileCompatibilityFlags>>24) && out[3] == byte(record.GeneralProfileCompatibilityFlags>>16) && out[4] == byte(record.GeneralProfileCompatibilityFlags>>8) && out[5] == byte(record.GeneralProfileCompatibilityFlags)
+//@   ensures out[6] == byte(record.GeneralConstraintIndicatorFlags>>40) && out[7] == byte(record.GeneralConstraintIndicatorFlags>>32) && out[8] == byte(record.GeneralConstraintIndicatorFlags>>24) && out[9] == byte(record.GeneralConstraintIndicatorFlags>>16) && out[10] == byte(record.GeneralConstraintIndicatorFlags>>8) && out[11] == byte(record.GeneralConstraintIndicatorFlags)
+//@   ensures out[13] == 0xf0 && out[14] == 0 && out[15] == 0xfc && out[16] == record.ChromaFormatIDC|0xfc && out[17] == record.BitDepthLumaMinus8|0xf8 && out[18] == record.BitDepthChromaMinus8|0xf8 && out[19] == 0 && out[20] == 0
+//@   ensures out[21] == record.MaxSubLayers<<3 | record.TemporalIdNestingFlag<<2 | record.LengthSizeMinusOne && out[22] == 3
+//@   ensures out[23] == hevc.NalVps && be16(out, 24) == 1 && be16(out, 26) == len(record.VPS) && forall(i, 0, len(record.VPS), out[28+i] == record.VPS[i])
+//@   ensures out[28+len(record.VPS)] == hevc.NalSps && be16(out, 29+len(record.VPS)) == 1 && be16(out, 31+len(record.VPS)) == len(record.SPS) && forall(i, 0, len(record.SPS), out[33+len(record.VPS)+i] == record.SPS[i])
+//@   ensures out[33+len(record.VPS)+len(record.SPS)] == hevc.NalPps && be16(out, 34+len(record.VPS)+len(record.SPS)) == 1 && be16(out, 36+len(record.VPS)+len(record.SPS)) == len(record.PPS) && forall(i, 0, len(record.PPS), out[38+len(record.VPS)+len(record.SPS)+i] == record.PPS[i])
+// the record is built from the three parameter sets it is given (kept verbatim); the profile / level / chroma / bit-depth
+// fields come from decoding VPS and SPS (init: assumed - it only writes those fields; its decode errors are ignored by
+// the constructor, which then leaves the defaults)
+//@ func (record *HEVCDecoderConfigurationRecord) init() (err error)
+//@   trusted
+//@   requires record != nil
+//@   modifies record.GeneralProfileSpace, record.GeneralTierFlag, record.GeneralProfileIDC, record.GeneralProfileCompatibilityFlags, record.GeneralConstraintIndicatorFlags, record.GeneralLevelIDC, record.MaxSubLayers, record.TemporalIdNestingFlag, record.ChromaFormatIDC, record.BitDepthLumaMinus8, record.BitDepthChromaMinus8
+//@ func NewHEVCDecoderConfigurationRecord(vps []byte, sps []byte, pps []byte) (record *HEVCDecoderConfigurationRecord)
+//@   modifies
+//@   fresh record
+//@   ensures record != nil && sameHdr(record.VPS, vps) && sameHdr(record.SPS, sps) && sameHdr(record.PPS, pps) && record.ConfigurationVersion == 1 && record.LengthSizeMinusOne == 3
+// the H.265 sequence header tag: key frame / HEVC / sequence header / composition time 0 / timestamp 0, carrying the
+// configuration record with the VPS, SPS and PPS the stream currently has, verbatim and in this order
+//@ func (h265p *h265Packetizer) PacketizeSequenceHeader() (err error)
+//@   requires h265p != nil && h265p.tagWriter != nil && h265p.meta != nil && len(h265p.meta.Vps) < 1<<16 && len(h265p.meta.Sps) < 1<<16 && len(h265p.meta.Pps) < 1<<16
+//@   modifies ghostSeq(h265p.tagWriter, "tags")
+//@   local tag *Tag
+//@   assert[call:WriteFlvTag] tag != nil && tag.TagType == TagTypeVideo && tag.Timestamp == 0 && int(tag.DataSize) == len(tag.Data) && tag.StreamID == 0 && tag.Filter == 0
+//@   assert[call:WriteFlvTag] len(tag.Data) == 5 + 38 + len(h265p.meta.Vps) + len(h265p.meta.Sps) + len(h265p.meta.Pps) && tag.Data[0] == (FrameTypeKeyFrame<<4)|CodecIDHEVC && tag.Data[1] == H2645PacketTypeSequenceHeader && be24(tag.Data, 2) == 0
+//@   assert[call:WriteFlvTag] tag.Data[5] == 1 && tag.Data[5+21]&3 == 3 && tag.Data[5+22] == 3
+//@   assert[call:WriteFlvTag] tag.Data[5+23] == hevc.NalVps && be16(tag.Data, 5+24) == 1 && be16(tag.Data, 5+26) == len(h265p.meta.Vps) && forall(i, 0, len(h265p.meta.Vps), tag.Data[5+28+i] == h265p.meta.Vps[i])
+//@   assert[call:WriteFlvTag] tag.Data[5+28+len(h265p.meta.Vps)] == hevc.NalSps && be16(tag.Data, 5+29+len(h265p.meta.Vps)) == 1 && be16(tag.Data, 5+31+len(h265p.meta.Vps)) == len(h265p.meta.Sps) && forall(i, 0, len(h265p.meta.Sps), tag.Data[5+33+len(h265p.meta.Vps)+i] == h265p.meta.Sps[i])
+//@   assert[call:WriteFlvTag] tag.Data[5+33+len(h265p.meta.Vps)+len(h265p.meta.Sps)] == hevc.NalPps && be16(tag.Data, 5+34+len(h265p.meta.Vps)+len(h265p.meta.Sps)) == 1 && be16(tag.Data, 5+36+len(h265p.meta.Vps)+len(h265p.meta.Sps)) == len(h265p.meta.Pps) && forall(i, 0, len(h265p.meta.Pps), tag.Data[5+38+len(h265p.meta.Vps)+len(h265p.meta.Sps)+i] == h265p.meta.Pps[i])
+//@   ensures len(ghostSeq(h265p.tagWriter, "tags")) == old(len(ghostSeq(h265p.tagWriter, "tags"))) + 1
 // the H.264 sequence header tag: key frame / AVC / sequence header / composition time 0 / timestamp 0, carrying the
 // configuration record of the SPS and PPS the stream currently has
 //@ func (h264p *h264Packetizer) PacketizeSequenceHeader() (err error)
